@@ -146,6 +146,18 @@ Theorem assembled_reply6_matches_request :
 Proof. exact (@AsmRefine6.assembled_reply6_matches_request). Qed.
 Print Assumptions assembled_reply6_matches_request.
 
+Theorem assembled_sent_is_handle6_sent :
+  forall (dec_pds : imsg -> list (bytes * list PrefixPlugin.hint))
+  (enc_iapd : bytes * list PrefixPlugin.lease -> bytes) (is : list inst6)
+  (lif now : Z) (oob : option Z) (pip : bytes) (pport : Z) (d : pkt6)
+  (is' : list inst6) (p : pkt6) (dip : bytes) (dport : Z) (ifx : option Z),
+  srv6_step dec_pds enc_iapd is lif now oob pip pport (Some d) = (is', O6Sent p dip dport ifx) ->
+  exists log : list (nat * option pkt6),
+  handle6 (map (as_handler6 dec_pds enc_iapd now) is) lif oob pip pport (Some d) =
+  (Sent6 p dip dport ifx, log).
+Proof. exact (@AsmRefine6.assembled_sent_is_handle6_sent). Qed.
+Print Assumptions assembled_sent_is_handle6_sent.
+
 (* Non-vacuity (proofs/Server6Examples.v) *)
 Example hypotheses_satisfiable :
   fst (handle6 (map beh6_fn [B6Mark 1]) 0 (Some 4%Z) ([254;128] ++ zeros 13 ++ [77]) 547 (Some ex_d)) =
